@@ -50,6 +50,30 @@ def run(ctx):
     c02.r2_append_batch(ctx, rule="C07.R9")
     from . import c12
     c12.gz_predicate(ctx, "C07.R4")
+    # a log that ends in a torn record is still a log of what was produced: the repair in front of the restore cuts exactly the torn tail (symbolic check of the block scan)
+    ctx.rule("C07.R10", "C02.R6's symbolic check of the repair helper's plain-file scan: kept offset = block start + offset of the last line end + 1 as an identity, sentinel agreement "
+                        "between the loop guard and the 'not found' value, blocks tile the file backwards from its end")
+    c02.plain_scan(ctx, rule="C07.R10")
+    r11_plain_decoder(ctx, dec)
+
+
+def r11_plain_decoder(ctx, dec):
+    """What is read back is the JSON text as written: a decoder with an object hook (coba.json.loads rebuilds every one-field object named like a registered class,
+    e.g. {'L1': 0.5} -> L1Reward(0.5)) returns values that no evaluator, learner or environment produced."""
+    ctx.rule("C07.R11", "records are decoded with the standard library's hook-free json.loads: every `loads` used by TransactionDecode.filter resolves to the stdlib module "
+                        "bound by `import json` and passes no object_hook / cls (coba.json.loads turns one-field objects named like registered classes into instances)")
+    mod = ctx.model.modules[RES]
+    std = any(isinstance(st, ast.Import) and any(a_.name == "json" and (a_.asname or "json") == "json" for a_ in st.names) for st in mod.tree.body)
+    sites = []
+    for n in ast.walk(dec):
+        d = dotted_name(n) if isinstance(n, (ast.Attribute, ast.Name)) else None
+        if d and d.split(".")[-1] in ("loads", "load") and isinstance(getattr(n, "ctx", None), ast.Load):
+            sites.append((n, d))
+    ctx.floor("C07.R11", "decode sites in TransactionDecode.filter", len(sites), 1)
+    for n, d in sites:
+        call = parent(n) if isinstance(parent(n), ast.Call) and parent(n).func is n else None
+        hooked = call is not None and any(k.arg in ("object_hook", "object_pairs_hook", "cls") for k in call.keywords)
+        ctx.ob("C07.R11", RES, "TransactionDecode.filter", n, "the record is decoded by the stdlib json module without hooks", std and d == "json.loads" and not hooked, detail={"decoder": d})
 
 
 def _tcodes_produced(fn):
@@ -99,6 +123,9 @@ def r1_codes(ctx, enc, proc, run_):
         ctx.ob("C07.R1", RES, "TransactionEncode.filter", arm, f"arm {c} yields exactly one record", ok, stmt=f"arm {c} yields")
         for y in ys:
             v = getattr(y, "value", None)
+            if isinstance(v, ast.Name):   # `record = encoder([...])` inside a handler, `yield record` behind it
+                vs = assigned_value(enc, v.id)
+                v = vs[0] if len(vs) == 1 else v
             ok = isinstance(v, ast.Call) and call_name(v) == ENCODER and len(v.args) == 1
             ctx.ob("C07.R1", RES, "TransactionEncode.filter", y, "record goes through the single encoder", ok)
             if ok and isinstance(v.args[0], (ast.List, ast.Tuple)) and v.args[0].elts:
@@ -154,10 +181,15 @@ def r2_tags(ctx, enc, dec, res):
     ENCODER = name_bound(enc, lambda v: isinstance(v, ast.Lambda), "encoder")
     ITEM = _item(enc)
     for y in walk_shallow(enc):
-        if isinstance(y, ast.Yield) and isinstance(y.value, ast.Call) and call_name(y.value) == ENCODER and y.value.args:
-            a = y.value.args[0]
-            if isinstance(a, (ast.List, ast.Tuple)) and a.elts and const_str(a.elts[0]):
-                emitted[const_str(a.elts[0])] = a
+        if not isinstance(y, ast.Yield):
+            continue
+        # `yield encoder([...])`, or `record = encoder([...])` ... `yield record` (the record is built inside a handler and yielded outside it)
+        vals = [y.value] if isinstance(y.value, ast.Call) else assigned_value(enc, y.value.id) if isinstance(y.value, ast.Name) else []
+        for v in vals:
+            if isinstance(v, ast.Call) and call_name(v) == ENCODER and v.args:
+                a = v.args[0]
+                if isinstance(a, (ast.List, ast.Tuple)) and a.elts and const_str(a.elts[0]):
+                    emitted[const_str(a.elts[0])] = a
     n_yields = sum(1 for y in walk_shallow(enc) if isinstance(y, (ast.Yield, ast.YieldFrom)))
     ctx.floor("C07.R2", "records yielded by TransactionEncode", n_yields, 6)
     readers = [(RES, "TransactionResult.filter", res)]
@@ -258,7 +290,14 @@ def r3_packing(ctx, enc, res):
     ITEM = _item(enc)
     ROWS_T = name_bound(arm, lambda v: isinstance(v, ast.Call) and call_name(v) in ("collections.defaultdict", "defaultdict"), "rows_T")
     KEYS = name_bound(arm, lambda v: isinstance(v, ast.Call) and call_name(v) == "sorted", "keys")
-    outer = [s for s in arm.body if isinstance(s, ast.For)]
+    # the arm may build its record inside a handler (rows that cannot be written cost their own triple only): look through the try
+    body = [x for s_ in arm.body for x in ((s_.body + s_.orelse) if isinstance(s_, ast.Try) else [s_])]
+    for t_ in [s_ for s_ in arm.body if isinstance(s_, ast.Try)]:
+        for h in t_.handlers:
+            logs = any(isinstance(c, ast.Call) and unparse(c.func) in ("CobaContext.logger.log",) for x in h.body for c in ast.walk(x))
+            ctx.ob("C07.R3", RES, "TransactionEncode.filter", h, "a record that cannot be written is reported in the log (never dropped silently) and only its own triple is lost",
+                   logs and h.name is not None and not any(isinstance(x, (ast.Break, ast.Return)) for b_ in h.body for x in ast.walk(b_)), stmt="unwritable record reported")
+    outer = [s for s in body if isinstance(s, ast.For)]
     ok = False
     detail = {}
     if len(outer) == 1 and unparse(outer[0].iter) == f"{ITEM}[2]" and len(outer[0].body) == 1 and isinstance(outer[0].body[0], ast.For):
@@ -275,7 +314,10 @@ def r3_packing(ctx, enc, res):
         and f".keys() for " in unparse(keys[0]) and f" in {ITEM}[2]" in unparse(keys[0]) and kw(keys[0], "key") is not None and unparse(kw(keys[0], "key")) == "str"
     ctx.ob("C07.R3", RES, "TransactionEncode.filter", enclosing_stmt(keys[0]) if keys else arm, "packed key set is the union of all row keys, sorted by str", ok, stmt="key union")
     ys = [y for s in arm.body for y in walk_shallow(s) if isinstance(y, ast.Yield)]
-    ok = bool(ys) and f"'_packed': {ROWS_T}" in unparse(ys[0])
+    shown = unparse(ys[0]) if ys else ""
+    if ys and isinstance(ys[0].value, ast.Name):
+        shown = " ".join(unparse(v) for v in assigned_value(enc, ys[0].value.id))
+    ok = bool(ys) and f"'_packed': {ROWS_T}" in shown
     ctx.ob("C07.R3", RES, "TransactionEncode.filter", ys[0] if ys else arm, "the packed columns are what is emitted", ok, stmt="emit packed columns")
     # reader numbering
     PACKED = name_bound(res, lambda v: isinstance(v, ast.Call) and "_packed" in unparse(v), "packed")
@@ -456,6 +498,8 @@ def _sort_keys_default(tree):
 
 
 CONTROLS = [
+    ("records decoded with the class-rebuilding decoder", RES, M.replace_expr("TransactionDecode.filter", "map(json.loads, transactions)", "map(coba.json.loads, transactions)"), "C07.R11"),
+    ("repair counts the kept offset from the end of the file", EXP, M.replace_expr("_drop_partial_record", "start + end + 1 if end >= 0 else 0", "size - (pos - start - end - 1) if end >= 0 else 0"), "C07.R10"),
     ("result records written eight at a time", EXP, M.replace_expr("Experiment.run", "DiskSink(result_file, batch=1)", "DiskSink(result_file, batch=8)"), "C07.R9"),
     ("packed column converted by its first cell", RES, M.replace_expr("TransactionResult.filter", "[tuple(c) if c.__class__ is list else c for c in v] if k != 'rewards' else v",
                                                                      "list(map(tuple, v)) if k != 'rewards' and isinstance(v[0], list) else v"), "C07.R5"),
